@@ -577,3 +577,36 @@ example : 0 < Kern.norm ((⟨0, 0, 0⟩ : V3 ℝ) - ⟨1, 0, 0⟩) := by
   exact h.1.1
 
 end MagpyVerif.C15
+
+/-! ### added by the audit: non-vacuity examples for the definedness theorems that had none -/
+
+namespace MagpyVerif.C15
+open MagpyVerif MagpyVerif.Kern
+
+-- after dipole_defined_off_position
+example : Kern.norm (⟨1, 2, 2⟩ : V3 ℝ) * Kern.norm (⟨1, 2, 2⟩ : V3 ℝ) * Kern.norm (⟨1, 2, 2⟩ : V3 ℝ) ≠ 0 :=
+  (dipole_defined_off_position ⟨1, 2, 2⟩ (Or.inl (by norm_num))).1
+
+-- after sphere_outside_divisor: diameter 2, observer (3,0,0): |d|/2 = 1 < 3
+example : |(2 : ℝ)| / 2 < Kern.norm (⟨3, 0, 0⟩ : V3 ℝ) := by
+  have : Kern.norm (⟨3, 0, 0⟩ : V3 ℝ) = 3 := by
+    simp only [Kern.norm, sqrt_real]
+    rw [show (3 : ℝ) * 3 + 0 * 0 + 0 * 0 = 3 ^ 2 by norm_num]; exact Real.sqrt_sq (by norm_num)
+  rw [this]; norm_num
+
+-- after segment_length_pos
+example : 0 < Kern.norm ((⟨0, 0, 0⟩ : V3 ℝ) - ⟨1, 0, 0⟩) :=
+  segment_length_pos _ _ (Or.inl (by norm_num))
+
+-- after segment_defined_off_line: unit segment on the x-axis, observer (0,0,1)
+example : 0 < SegBS.nsq (V3.cross ((⟨1, 0, 0⟩ : V3 ℝ) - ⟨0, 0, 0⟩) (⟨0, 0, 1⟩ - ⟨0, 0, 0⟩)) := by
+  simp [SegBS.nsq, V3.cross]
+
+-- after cylinder_edge_mask_covers_singular: an observer exactly on the edge (normalised r = 1, z = z0 = 3/2) is masked …
+example : (cylMasks (3 / 2 : ℝ) 1 (3 / 2)).onEdge = true :=
+  (cylinder_edge_mask_covers_singular (3 / 2) 1 (3 / 2) (by norm_num)).1 rfl (by norm_num)
+-- … and one on the hull but not on the edge is not, and its modulus is non-zero
+example : cylK ((1 : ℝ) + 3 / 2) 1 ≠ 0 :=
+  (cylinder_edge_mask_covers_singular (3 / 2) 1 1 (by norm_num)).2.1 (by norm_num)
+
+end MagpyVerif.C15
